@@ -40,6 +40,15 @@ MISSED_AT_FIRST = {
     'C13-4': 'missed: every workload process overrode calculate_timestep; timestep kind param (default calculate_timestep, the process changes parameters[timestep] itself) added to the schedule generators',
     'C14-4': 'missed: the serialized tree was never looked at again after deserialize_value; oracle serialized_kept, and the emitter is read twice',
     'C15-4': 'missed: initial_state() placement was only asserted for nodes with a single declaring variable; several variables of one process on one node now supply one value',
+    'C01-5': 'missed: processes returned fresh update dictionaries; a fifth of the ledger processes now have two dictionary ports on one store whose update dictionaries are built once and returned every time',
+    'C05-5': 'caught by C10 (replace operation) but missed by C05: the generated compartment was never generated again after its deletion; C05 now generates it a second time (same key, same step names)',
+    'C06-5': 'missed: all colliding updates were non-zero increments under accumulate; shared-node family added (2-4 port variables on one node with a log or set updater, falsy updates)',
+    'C08-5': 'missed: the default of a variable with declared units was always written in those units; defaults in another compatible unit added',
+    'C09-5': 'missed: _add only created branch children with truthy dictionary states; op kind add_leaf (glob store of plain variables, falsy states)',
+    'C12-5': 'missed: the root always had non-empty branches; flat family added (all variables directly under the root, often nothing flagged: empty rows must still be emitted)',
+    'C14-5': 'missed: only exact built-in types; two subclasses of set and of ndarray (and masked arrays) added',
+    'C15-5': 'missed: glob sub-schemas were declared by one process; family with 2-3 processes declaring nested sub-variables for the children of one glob store added',
+    'C16-5': 'missed: ports_schema() always built a fresh dictionary; in 40% of the cases every instance now hands out one class-level schema object',
     'C19-4': 'missed: one update() whose length is a multiple of the timestep; a third of the cases now make 2-4 update() calls that cut ticks short',
 }
 
